@@ -438,11 +438,15 @@ static size_t memory_share (svalue_t * sv) {
       /* first svalue is stored inside the array struct, so sizeof(array_t)
        * includes one svalue.
        */
+      if (size_walk_seen (sv->u.arr))
+        return total;
       subtotal = sizeof (array_t) - sizeof (svalue_t);
       for (i = 0; i < sv->u.arr->size; i++)
         subtotal += memory_share (&sv->u.arr->item[i]);
       return total + subtotal / sv->u.arr->ref;
     case T_MAPPING:
+      if (size_walk_seen (sv->u.map))
+        return total;
       subtotal = sizeof (mapping_t);
       mapTraverse (sv->u.map, node_share, &subtotal);
       return total + subtotal / sv->u.map->ref;
@@ -503,7 +507,12 @@ fms_recurse (mapping_t * map, object_t * ob, int *idx, program_t * prog)
 
   for (i = 0; i < prog->num_variables_defined; i++)
     {
-      size_t size = memory_share (ob->variables + *idx + i);
+      size_t size;
+
+      /* one walk per variable: a container reachable twice from it (shared, or a cycle) is counted once */
+      size_walk_begin ();
+      size = memory_share (ob->variables + *idx + i);
+      size_walk_end ();
 
       sv.u.string = prog->variable_table[i];
       entry = find_for_insert (map, &sv, 0);
